@@ -99,6 +99,11 @@ CHECKS = {
             'Held on the executions produced: backends completed, JavaScript parsed and requested the right URL / '
             'argument / attributes, every struct / union / alias / route declared once with the modelled members, '
             'every referenced type name resolvable.', '4 C16'),
+    'C17': ('runtime monitoring: the six Swift / Objective-C backend configurations run on generated specs; every '
+            'emitted source file lexed by own lexers (and clang raw tokens as second opinion for Objective-C); '
+            'declarations counted under each naming scheme; qualified user-type names resolved',
+            'Held on the executions produced, with two open known findings (Bytes/Timestamp defaults). Lexical '
+            'and declarative assurance only: no Swift / Objective-C compiler is available.', '4 C17'),
 }
 
 PENDING = {}
